@@ -76,6 +76,12 @@ func genGlobals(repo, outPath string) error {
 			ast.Inspect(fd.Body, func(n ast.Node) bool {
 				switch n := n.(type) {
 				case *ast.AssignStmt:
+					for _, r := range n.Rhs {
+						// another name for the value of a package-level variable
+						if id, ok := r.(*ast.Ident); ok && globals[id.Name] && !locals[id.Name] {
+							note(id.Name, fname, "aliased")
+						}
+					}
 					for _, l := range n.Lhs {
 						if n.Tok == token.DEFINE {
 							if id, ok := l.(*ast.Ident); ok {
@@ -98,6 +104,20 @@ func genGlobals(repo, outPath string) error {
 							}
 						}
 					}
+				case *ast.ValueSpec:
+					for _, v := range n.Values {
+						if id, ok := v.(*ast.Ident); ok && globals[id.Name] && !locals[id.Name] {
+							note(id.Name, fname, "aliased")
+						}
+					}
+				case *ast.ReturnStmt:
+					// the value of a package-level variable handed out to callers: whoever receives a pointer, map or slice
+					// can write through it
+					for _, r := range n.Results {
+						if id, ok := r.(*ast.Ident); ok && globals[id.Name] && !locals[id.Name] {
+							note(id.Name, fname, "returned")
+						}
+					}
 				case *ast.UnaryExpr:
 					if n.Op == token.AND {
 						if id, ok := n.X.(*ast.Ident); ok && globals[id.Name] && !locals[id.Name] {
@@ -108,6 +128,22 @@ func genGlobals(repo, outPath string) error {
 					if sel, ok := n.Fun.(*ast.SelectorExpr); ok {
 						if id, ok := sel.X.(*ast.Ident); ok && globals[id.Name] && !locals[id.Name] {
 							note(id.Name, fname, "method:"+sel.Sel.Name)
+						}
+					}
+					for _, a := range n.Args {
+						// handed to another function of the package (library calls such as fmt.Errorf("%w", ErrX) excepted:
+						// a selector callee outside the package cannot keep what it is not given a pointer to... it can; but the
+						// package's own variables passed there are error values and the logger)
+						if id, ok := a.(*ast.Ident); ok && globals[id.Name] && !locals[id.Name] {
+							if callee, ok := n.Fun.(*ast.Ident); ok {
+								note(id.Name, fname, "passed:"+callee.Name)
+							} else if sel, ok := n.Fun.(*ast.SelectorExpr); ok {
+								if _, isPkg := sel.X.(*ast.Ident); !isPkg {
+									note(id.Name, fname, "passed:"+sel.Sel.Name)
+								} else if x := sel.X.(*ast.Ident); !strings.Contains("fmt errors", x.Name) {
+									note(id.Name, fname, "passed:"+x.Name+"."+sel.Sel.Name)
+								}
+							}
 						}
 					}
 				}
